@@ -474,9 +474,10 @@ func (c *client) executeReadLoop(cborReader *cbor.Decoder) {
 	// Every exit below clears readLoopRunning in the critical section that decides to exit.
 	defer c.wg.Done()
 	// Loop and get all messages
-	// The message is generic, so we must find the type and decode the full message next.
-	var runtimeMessage DecodedRuntimeMessage
 	for {
+		// The message is generic, so we must find the type and decode the full message next.
+		// A fresh message per iteration: the decoder leaves fields that are absent from the input untouched.
+		var runtimeMessage DecodedRuntimeMessage
 		if err := cborReader.Decode(&runtimeMessage); err != nil {
 			c.logger.Errorf(
 				"ATP client for steps '%s' failed to read or decode runtime message: %v",
